@@ -90,6 +90,10 @@ impl Rng {
         }
         w.len() - 1
     }
+    /// pick from a slice of string literals (helps type inference at `&str` call sites)
+    pub fn pick_str(&mut self, xs: &[&'static str]) -> &'static str {
+        xs[self.below(xs.len())]
+    }
     pub fn shuffle<T>(&mut self, xs: &mut [T]) {
         for i in (1..xs.len()).rev() {
             let j = self.below(i + 1);
